@@ -373,6 +373,163 @@ pub fn check_race(case: &RaceCase, st: &mut Stats) -> Result<(), String> {
     verdict
 }
 
+
+// ---------------------------------------------------------------------------------------------
+// the same batches through a live node: real listener, real gossip handler, real push_validator_addrs server
+
+fn build_with(keys: &[validator::SecretKey], a: &Ann) -> Arc<validator::Signed<validator::NetAddress>> {
+    let ts = timestamps();
+    let msg = validator::NetAddress { addr: std::net::SocketAddr::from(([10, 0, 0, 1], a.port)), version: a.version, timestamp: ts[a.ts % ts.len()] };
+    let mut s = keys[a.signed_by].sign_msg(msg);
+    s.key = keys[a.key].public();
+    if a.altered {
+        s.msg.addr = std::net::SocketAddr::from(([10, 6, 6, 6], a.port));
+    }
+    Arc::new(s)
+}
+
+pub fn gen_live(ch: &mut Choices) -> Case {
+    let mut c = gen_case(ch);
+    // the live node's committee has three members (identities 0..3); identities 3 and 4 are outsiders
+    c.n = 3;
+    for b in c.batches.iter_mut() {
+        for a in b.iter_mut() {
+            a.key %= 5;
+            a.signed_by %= 5;
+        }
+    }
+    c.batches.truncate(5);
+    c
+}
+
+pub fn check_live(case: &Case, st: &mut Stats) -> Result<(), String> {
+    use rand::SeedableRng as _;
+    use zksync_concurrency::{ctx, limiter, scope};
+    use zksync_consensus_engine::{testonly::in_memory, EngineManager};
+    use zksync_consensus_network::{
+        testonly::Instance,
+        verif::{self as hook, Mux, MuxConfig, NoiseTcp},
+    };
+    let rt = tokio::runtime::Builder::new_current_thread().enable_all().build().unwrap();
+    rt.block_on(async {
+        let ctx = &ctx::root();
+        let rng = &mut rand::rngs::StdRng::seed_from_u64(15);
+        let setup = validator::testonly::Setup::new(rng, 3);
+        let setup = &setup;
+        let mut keys: Vec<validator::SecretKey> = setup.validator_keys.clone();
+        keys.extend(gen::val_keys().iter().take(2).cloned());
+        let keys = &keys;
+        let nk = gen::node_keys();
+        let node_pub = nk[9].public();
+        let node_pub = &node_pub;
+        let st2 = &mut *st;
+        let res: Result<(), String> = scope::run!(ctx, |ctx, s| async move {
+            let st = st2;
+            let eng = in_memory::Engine::new_random(setup, setup.first_block());
+            let (mgr, run) = EngineManager::new(ctx, Box::new(eng), time::Duration::seconds(60)).await.map_err(|e| format!("INFRA: EngineManager::new: {e:?}"))?;
+            s.spawn_bg(async { run.run(ctx).await.map_err(|e| format!("INFRA: engine runner: {e:#}")) });
+            let mut cfg = crate::c12::gossip_cfg(&nk[9]);
+            let listen = zksync_concurrency::net::tcp::testonly::reserve_listener();
+            cfg.server_addr = listen;
+            cfg.public_addr = (*listen).into();
+            cfg.rpc.push_validator_addrs_rate = limiter::Rate::INF;
+            let addr: std::net::SocketAddr = *listen;
+            let (node, runner) = Instance::new(cfg, mgr);
+            let node = &node;
+            s.spawn_bg(async move {
+                let _ = runner.run(ctx).await;
+                Ok(())
+            });
+            let mut up = false;
+            for _ in 0..500 {
+                if let Ok(c) = tokio::net::TcpStream::connect(addr).await {
+                    drop(c);
+                    up = true;
+                    break;
+                }
+                tokio::time::sleep(std::time::Duration::from_millis(5)).await;
+            }
+            if !up {
+                return Err("INFRA: the node did not start listening within 2.5 s".into());
+            }
+            let table = hook::rpc_table();
+            let push_cap = table.iter().find(|t| t.0 == "push_validator_addrs").map(|t| t.1).unwrap();
+            let book = || -> BTreeMap<validator::PublicKey, Arc<validator::Signed<validator::NetAddress>>> { node.state().verif_validator_addrs().into_iter().map(|e| (e.key.clone(), e)).collect() };
+            let mut model: BTreeMap<usize, Ann> = BTreeMap::new();
+            // a connection of a scripted peer; replaced after every refused batch (the node drops a peer that sent one)
+            let mut conn: Option<hook::MuxQueue> = None;
+            let mut identity = 0usize;
+            let (mut refused, mut accepted) = (0u64, 0u64);
+            for (bi, batch) in case.batches.iter().enumerate() {
+                if conn.is_none() {
+                    let mut mine = NoiseTcp::preface_connect(ctx, addr, false).await.map_err(|e| format!("INFRA: preface_connect: {e:?}"))?;
+                    let pcfg = crate::c12::gossip_cfg(&nk[identity % 8]);
+                    identity += 1;
+                    hook::gossip::handshake_outbound(ctx, &pcfg, setup.genesis.hash(), &mut mine, node_pub).await.map_err(|e| format!("INFRA: handshake of the scripted peer: {e}"))?;
+                    let mut m = Mux::new(MuxConfig::rpc());
+                    let q = m.accept(ctx, push_cap, 1, limiter::Rate::INF);
+                    s.spawn_bg(async move {
+                        let _ = m.run(ctx, mine).await;
+                        Ok(())
+                    });
+                    conn = Some(q);
+                }
+                let before = book();
+                let mut req = vec![];
+                for a in batch {
+                    req.extend(crate::c19::pb_len(1, &zksync_protobuf::encode(&*build_with(keys, a))));
+                }
+                let mut call = match tokio::time::timeout(std::time::Duration::from_secs(10), conn.as_ref().unwrap().open(ctx)).await {
+                    Ok(Ok(c)) => c,
+                    _ => return Err("INFRA: the node did not open a push_validator_addrs sub-stream within 10 s".into()),
+                };
+                let _ = call.write_all(ctx, &crate::c19::rpc_frame(&req)).await;
+                let _ = call.flush(ctx).await;
+                call.close_write();
+                let resp = tokio::time::timeout(std::time::Duration::from_secs(10), call.read_exact(ctx, 4)).await.map_err(|_| format!("INFRA: batch {bi} was neither acknowledged nor refused within 10 s"))?;
+                let acked = matches!(&resp, Ok(h) if h.len() == 4);
+                let model_before = model.clone();
+                let want = model_update(&mut model, 3, batch);
+                let model_changed = model != model_before;
+                // the handler has returned in either case (the response, or the end of the sub-stream, comes after it)
+                let after = book();
+                // whether the node answers a bad batch with an error or merely ignores it is not part of the property;
+                // what it does to its address book is
+                if acked {
+                    accepted += 1;
+                } else {
+                    refused += 1;
+                    conn = None;
+                }
+                if want.is_ok() && !acked && after == before && model_changed {
+                    return Err(format!("batch {bi}: a batch of genuine newer announcements (no forged entry that would be stored, no duplicate) was refused by the node and not applied"));
+                }
+                if !acked && after != before {
+                    return Err(format!("batch {bi}: the node refused the batch but its address book changed"));
+                }
+                let want_book: BTreeMap<_, _> = model.iter().map(|(k, a)| (keys[*k].public(), build_with(keys, a))).collect();
+                if after.len() != want_book.len() || after.iter().any(|(k, v)| want_book.get(k).map(|w| **w != **v).unwrap_or(true)) {
+                    return Err(format!("batch {bi}: the node's address book differs from the reference model after a batch pushed by a peer: {} entries vs {}", after.len(), want_book.len()));
+                }
+                for (k, v) in &after {
+                    if v.key != *k || v.verify().is_err() || !keys[..3].iter().any(|x| x.public() == *k) {
+                        return Err(format!("batch {bi}: the node stores an announcement that is not a member's own, verifying announcement"));
+                    }
+                }
+            }
+            st.count("batches_acknowledged", accepted);
+            st.count("batches_refused_and_peer_dropped", refused);
+            if refused > 0 && accepted > 0 {
+                st.nontrivial(common::fingerprint(case));
+            }
+            st.sample(|| serde_json::to_value(case).unwrap());
+            Ok(())
+        })
+        .await;
+        res
+    })
+}
+
 pub fn main(env: &Env) -> i32 {
     if let Mode::Replay(path) = env.mode() {
         let (part, case) = Env::read_replay(&path);
@@ -380,6 +537,7 @@ pub fn main(env: &Env) -> i32 {
             "batches" => common::replay_case::<Case>(case, check),
             "convergence" => common::replay_case::<ConvCase>(case, check_conv),
             "announce_threads" => common::replay_case::<RaceCase>(case, check_race),
+            "live_push" => common::replay_case::<Case>(case, check_live),
             p => Err(format!("unknown part {p}")),
         };
         return env.finish_replay(&path, r);
@@ -387,6 +545,7 @@ pub fn main(env: &Env) -> i32 {
     let mut parts: Vec<PartReport> = vec![];
     parts.extend(common::run_regress::<Case>(env, "batches", check));
     parts.extend(common::run_regress::<ConvCase>(env, "convergence", check_conv));
+    parts.extend(common::run_regress::<Case>(env, "live_push", check_live));
     parts.push(run_proptest(
         env,
         "batches",
@@ -419,6 +578,15 @@ pub fn main(env: &Env) -> i32 {
             check_race,
         ));
     }
+    parts.push(run_proptest(
+        env,
+        "live_push",
+        "the batches of the first part pushed to a LIVE node by a scripted peer: real listener and accept loop, real gossip handler, real push_validator_addrs RPC server and its handler (committee of 3, 2 outsiders, 1-5 batches); the peer sees whether the node acknowledges a batch or ends the call, and reconnects under a new identity after a refusal (the node drops a peer that sent a bad batch); \
+         oracle: after every batch the node's address book equals the reference map (whole-batch atomicity: a batch the model rejects changes nothing, a batch it accepts is applied) and holds only members' own verifying announcements; whether the node answers a bad batch with an error or silently ignores it is not judged. Non-trivial = a run with both an acknowledged and a refused batch",
+        PartOpts { cases: env.tier.pick(300, 6_000), max_shrink_iters: 100, samples: 2 },
+        || Choices::strategy(400).prop_map(|mut ch| gen_live(&mut ch)),
+        check_live,
+    ));
     env.finish(
         "exploration",
         "generated announcement batches against a reference map and model-free invariants; the node's own announcement racing with pushed batches on real threads",
